@@ -1,8 +1,10 @@
 """C04 — BMS reading.
 
 Correspondence: `BMSMap.read(lines, layout)` against `Reamber.BMS.read` (Model/BMS.lean, layouts from the generated
-tables); specification: `Reamber.BMS.denote` (Spec/BMS.lean, BMS by the book over the hand-written book layouts)
-evaluated by the driver on the same text.  Byte strings travel as hex.  The implementation computes in doubles,
+tables); specification: `Reamber.BMS.denoteText` (Spec/BMS.lean, BMS by the book with the specification's OWN lexer
+`bookLine`/`bookTable`/`bookDoc`, over the hand-written book layouts) evaluated by the driver on the same text; for
+the FILE entry point the specification splits the file's bytes itself (`fileLines`).  On every case the driver also
+reports whether the two lexers agree where the by-the-book one is defined (the proved `bookDoc_parseDoc`).  Byte strings travel as hex.  The implementation computes in doubles,
 the model in rationals: continuous outputs are compared within the DESIGN §3 tolerance; the only discontinuity
 on the path to hit/hold times is the re-snapping of tempo positions (reported by the model as `resnap_margins`).
 The reseated tempo list is compared structurally and, if that fails, through the measure lines it generates
@@ -27,12 +29,14 @@ RULE = ("BMS texts over the five layouts: header (title/artist/level/#BPM/#LNOBJ
         "bare CR line ends, trailing blank lines), 20 % read one or two other texts first in the same process (state kept "
         "between calls); non-trivial = a tempo object followed by a note, or a long note, or shuffled lines")
 ASSUMPTIONS = [
-    "read_file: Python's codecs line splitting (str.splitlines) is modelled by the harness, not verified; the model is "
-    "given the lines the file splits into",
+    "read_file: Python's codecs line splitting (str.splitlines on the decoded text) is modelled in Lean (pyLines: LF, CR, CRLF, "
+    "VT, FF, FS, GS, RS) and compared with the real BMSMap.read_file on every file case; the shift_jis codec is not modelled",
     "shift_jis codec, str.strip and float()/int() text parsing are modelled on plain decimal / hex text only",
     "channel-02 lines (time signatures) are outside the property's quantifier and are not generated",
 ]
-TRUSTED_EXTRA = ["byte-level lexer (line classifier, header dict, decimal parser) is shared by model and specification"]
+TRUSTED_EXTRA = ["header record (selection of the #BPMxx/#WAVxx tables out of the header table, decimal parser) is shared by model "
+                 "and specification; the line lexer and the header table are NOT shared (bookLine/bookTable, proved equal to the "
+                 "reader's on every text the specification gives a meaning)"]
 
 LAYOUTS = {
     "BMS": ["11", "12", "13", "14", "15", "16", "17", "21", "22", "23", "24", "25", "26", "27"],
@@ -288,6 +292,13 @@ def corpus():
     c.append(dict(claim="read", layout="PMS", lines=["#BPM 120", "#00111:1"]))
     c.append(dict(claim="read", layout="PMS", lines=["#BPM 120", "#"]))
     c.append(dict(claim="read", layout="PMS", lines=["#bpm 120"]))
+    # where the reader's lexer is more liberal than the format (theorem lexer_dialect_facts): the model side of each
+    # clause is replayed on the real code here
+    for odd in ["#001111:01", "#1:01", "#0011*:01", "#001:11:01", "#00111", "#"]:
+        c.append(dict(claim="read", layout="BME", lines=["#BPM 120", odd, "#00211:01"]))
+    # a header defined twice keeps the place of its first definition and the value of its last (bookTable)
+    c.append(dict(claim="read", layout="BME", lines=["#GENRE a", "#BPM 100", "#SUBTITLE s", "#GENRE b", "#BPM 120", "#GENRE c",
+                                                     "#00111:0101", "#00111:00000001"]))
     # D43 (fixed): no #TITLE / #ARTIST / #PLAYLEVEL -> empty bytes, not str
     c.append(dict(claim="read", layout="BMS", lines=["#BPM 150", "#GENRE x", "#00111:0101"]))
     c.append(dict(claim="read", layout="BMS", lines=["#TITLE only title", "#BPM 150", "#00111:0101"]))
@@ -298,6 +309,10 @@ def corpus():
            "#00222:01010101"]
     for eol in ("lf", "crlf", "cr"):
         c.append(dict(claim="read", layout="PMS", lines=txt, via=dict(mode="file", eol=eol, trail=(eol != "lf"))))
+    # a form feed inside a header value: Python's line splitter cuts there, the format does not (theorem
+    # read_file_splits_at_control_bytes); outside read_file_eq_denote, the model must still follow the code
+    c.append(dict(claim="read", layout="BME", lines=["#TITLE a\x0cb", "#BPM 120", "#00111:01"], via=dict(mode="file", eol="lf", trail=False)))
+    c.append(dict(claim="read", layout="BME", lines=["#BPM 120", "#00111:01\x1c#00112:01", "#00211:01"], via=dict(mode="file", eol="crlf", trail=True)))
     # state kept between reads: a table of the first text must not be visible to the second
     c.append(dict(claim="read", layout="BME", lines=["#BPM 120", "#00108:01", "#00111:0A"],
                   before=[dict(layout="BME", lines=["#BPM 100", "#BPM01 200", "#WAV0A k.wav", "#LNOBJ 0A", "#00108:01", "#00111:0A"])]))
@@ -549,19 +564,39 @@ def run(case, drv):
     lines_hex = [l.encode("shift_jis").hex() for l in lines_seen(case)]
     layout = case["layout"]
     impl = run_impl(case)
-    m = drv.call("c04.read", layout=layout, lines=lines_hex)
-    den = drv.call("c04.denote", layout=layout, lines=lines_hex)["ok"]
-    flags = den["flags"]
-    d = den["den"]
     tags = [layout]
+    spec_hex = lines_hex
+    file_lines_differ = False
     if (case.get("via") or {}).get("mode") == "file":
         tags.append("via:read_file:" + (case["via"].get("eol") or "lf"))
+        # the model reads the FILE (`readFile`: Python's line splitting `pyLines` is part of the model); the
+        # specification splits the file itself (`fileLines`: LF / CRLF / bare CR).  Python's splitter knows more
+        # separators (VT, FF, FS, GS, RS): a file holding one of those is outside read_file_eq_denote
+        fb = file_bytes(case["lines"], case["via"].get("eol", "lf"), case["via"].get("trail", False))
+        m = drv.call("c04.read_file", layout=layout, bytes=fb.hex())
+        spec_hex = drv.call("c04.file_lines", bytes=fb.hex())["ok"]
+        if spec_hex != lines_hex:
+            file_lines_differ = True
+            tags.append("file-lines-differ")
+            spec_hex = lines_hex
+    else:
+        m = drv.call("c04.read", layout=layout, lines=lines_hex)
+    den = drv.call("c04.denote", layout=layout, lines=spec_hex)["ok"]
+    flags = den["flags"]
+    d = den["den"]
+    if not flags["book_lexed"] and flags["shared_defined"]:
+        tags.append("dialect:reader-more-liberal")
     if case.get("before"):
         tags.append("after-other-reads")
     detail = {}
     agree, ok, boundary, maxdev = True, True, False, 0.0
     if "err" in m and m["err"] == "unsupported":
         return dict(claim="read", ok=True, agree=True, dom=False, kf=None, tags=tags + ["unsupported"], nontrivial=False)
+    lex_gap = not flags["lex_agree"]
+    if lex_gap:
+        # the proved agreement of the two lexers (bookDoc_parseDoc / denoteText_eq_denote) failed on this text
+        tags.append("lexer-gap")
+        detail["lexer"] = "specification's lexer and the reader model's classifier disagree on a text the former gives a meaning"
     margins = list(flags["resnap_margins"]) + (m["ok"]["resnap_margins"] if "ok" in m else [])
     near_tie = any(F(x) < TOL_MARGIN for x in margins)
     # ---------------- (C) implementation vs model
@@ -601,7 +636,12 @@ def run(case, drv):
         tags.append("spec-silent")
         in_dom = False
     else:
-        in_dom = flags["grid_compatible"] and flags["lanes_ordered"]
+        in_dom = flags["grid_compatible"] and flags["lanes_ordered"] and not file_lines_differ
+        if in_dom and "err" in m:
+            # read_eq_denote: inside its hypotheses the reader model SUCCEEDS (final reseat included)
+            agree = False
+            tags.append("theorem-gap")
+            detail["theorem"] = dict(model=m, note="model raises inside the hypotheses of read_eq_denote")
         if "ok" in m:
             # hypothesis `hst` of bms_times_partial, evaluated by the model; K1's claim "grid-compatible => stable"
             # is checked on every case
@@ -659,5 +699,5 @@ def run(case, drv):
     if n_tempo:
         tags.append("tempo-objects")
     nontrivial = bool(d) and (n_holds > 0 or (n_tempo > 0 and len(d["hits"]) > 0) or not flags["lanes_ordered"])
-    return dict(claim="read", ok=ok, agree=agree, dom=bool(in_dom), kf=kf, tags=tags, nontrivial=nontrivial, maxdev=maxdev,
+    return dict(claim="read", ok=ok, agree=bool(agree and not lex_gap), dom=bool(in_dom), kf=kf, tags=tags, nontrivial=nontrivial, maxdev=maxdev,
                 boundary=boundary, detail=detail)
